@@ -544,13 +544,13 @@ def canonical(g):
 # what the AST content built by a production feeds downstream: a production that loses or alters content breaks those properties too
 # (a necessary condition of each: the declared attribute / field / signature has to reach the semantic layer unchanged)
 DOWNSTREAM = [
-    (r'parse_type_definition|TypeStatement|TypeField', ['C01', 'C02', 'C03', 'C17']),
+    (r'parse_type_definition|TypeStatement|TypeField', ['C01', 'C02', 'C03', 'C17', 'C04', 'C06']),
     (r'grammar::Attribute|AttributePart|parse_attribute', ['C01', 'C02', 'C03', 'C05', 'C15', 'C16', 'C17']),
     (r'for grammar::Function>|for grammar::Argument>', ['C04', 'C05', 'C16']),
     (r'EnumStatement|parse_enum_definition', ['C08']),
     (r'for grammar::Type>|parse_type_ident', ['C01', 'C05', 'C10', 'C20']),
     (r'for grammar::Expr>|for grammar::ExprField>', ['C08', 'C15', 'C17', 'C20']),
-    (r'for grammar::ItemPath>|parse_item_definition|for grammar::Module>|parse_str', ['C11', 'C14']),
+    (r'for grammar::ItemPath>|parse_item_definition|for grammar::Module>|parse_str', ['C11', 'C14', 'C05', 'C15']),
     (r'parse_backend', ['C14']),
     (r'for grammar::Visibility>', ['C17']),
 ]
